@@ -63,19 +63,30 @@ def chunks(tier):
         for order in ("sorted", "reversed"):
             out.append(("L", b["LMAX"], first, order))
     out += [("H", i, b["bfs_depth"]) for i in range(4)]
-    out += [("U", i) for i in range(3)] + [("A",)]
+    out += [("U", i) for i in range(len(BOUND_SYSTEMS))] + [("A",)]
+    out += [("EQ", i) for i in EQ_POOL]
     out += [("CH", n, k) for n in (5, 6) for k in range(4)] + [("CC", k) for k in range(len(CONCAT_SYSTEMS))]
     return out
 
 
 # ------------------------------------------------------------------------------------------------ model
+REV = 100  # index REV + i is the reverse of pool reaction i (all four parts change sides): the backward half of an equilibrium
+
+
+def _entry(i):
+    if i >= REV:
+        r, p, ir, ip = POOL[i - REV]
+        return p, r, ip, ir
+    return POOL[i]
+
+
 def keys_of(i):
-    r, p, ir, ip = POOL[i]
+    r, p, ir, ip = _entry(i)
     return set(r) | set(p) | set(ir) | set(ip)
 
 
 def net_of(i, s):
-    r, p, ir, ip = POOL[i]
+    r, p, ir, ip = _entry(i)
     return p.get(s, 0) + ip.get(s, 0) - r.get(s, 0) - ir.get(s, 0)
 
 
@@ -123,12 +134,12 @@ def model_categories(seq, subs):
 
 
 def _all_reac(i):
-    r, p, ir, ip = POOL[i]
+    r, p, ir, ip = _entry(i)
     return {k: r.get(k, 0) + ir.get(k, 0) for k in set(r) | set(ir)}
 
 
 def _all_prod(i):
-    r, p, ir, ip = POOL[i]
+    r, p, ir, ip = _entry(i)
     return {k: p.get(k, 0) + ip.get(k, 0) for k in set(p) | set(ip)}
 
 
@@ -442,6 +453,8 @@ BOUND_SYSTEMS = [
     [("X", {1: 1}), ("Y", {2: 1}), ("XY", {1: 1, 2: 1}), ("X2Y", {1: 2, 2: 1})],
     [("X2", {1: 2}), ("XY3", {1: 1, 2: 3}), ("Y+", {2: 1, 0: 1}), ("e-", {0: -1}), ("X", {1: 1})],
     [("XY", {1: 1, 2: 1}), ("X3", {1: 3}), ("Y2", {2: 2})],
+    # hand-written compositions with the charge key written first or between the elements
+    [("X+", {0: 1, 1: 1}), ("XY-", {1: 1, 0: -1, 2: 1}), ("Y2", {2: 2}), ("X2Y+2", {0: 2, 1: 2, 2: 1})],
 ]
 
 
@@ -606,9 +619,42 @@ def run_concat(res, first):
     res.sample(dict(layer="CC", first=list(CONCAT_SYSTEMS[first][0])))
 
 
+EQ_POOL = [0, 2, 3, 4, 6, 7, 8, 9, 11, 13]  # pool reactions written as equilibria (7 and 11 carry inactive parts)
+
+
+def run_equilibria(res, first):
+    """systems assembled from equilibria expanded into their forward and backward reactions (Equilibrium.as_reactions):
+    the backward half has every part on the other side, so each pair is recognised as an equilibrium and no species of
+    an equilibrium is only produced or only consumed"""
+    from chempy import Equilibrium, ReactionSystem
+
+    others = [j for j in EQ_POOL if j != first]
+    for sel in [(first,)] + [(first, j) for j in others] + [(j, first) for j in others]:
+        for order in ("sorted", "reversed"):
+            subs = SUBS if order == "sorted" else SUBS[::-1]
+            seq = tuple(x for i in sel for x in (i, REV + i))
+            case = dict(layer="EQ", sel=list(sel), order=order)
+            res.states += 1
+            res.transitions += len(seq)
+            res.nontrivial += 1
+            try:
+                rxns = []
+                for i in sel:
+                    r, p, ir, ip = POOL[i]
+                    rxns += list(Equilibrium(r, p, 4, inact_reac=ir, inact_prod=ip, checks=()).as_reactions(kf=PARAMS[i], checks=()))
+                rs = ReactionSystem(rxns, OrderedDict((s_, _subst(s_)) for s_ in subs), checks=())
+            except Exception as e:
+                res.violation("C15|as_reactions|raises", "equilibria %r expanded into reactions: %s: %s" % (list(sel), type(e).__name__, e), case, "EXC %s" % type(e).__name__, None)
+                continue
+            check_queries(res, rs, seq, subs, case, light=len(sel) > 1)
+    res.sample(dict(layer="EQ", first=_rxn_text(first), systems="this equilibrium alone and with every other one, both listing orders, expanded with as_reactions"))
+
+
 def run_chunk(chunk, tier):
     res = Result()
-    if chunk[0] == "CH":
+    if chunk[0] == "EQ":
+        run_equilibria(res, chunk[1])
+    elif chunk[0] == "CH":
         run_chains(res, chunk[1], chunk[2])
     elif chunk[0] == "CC":
         run_concat(res, chunk[1])
@@ -641,6 +687,11 @@ def replay(case):
             new, mseq, msubs, rx = _build(case["start"], hist)
             check_queries(res, new, mseq, msubs, case)
             res.violations = [v for v in res.violations if v["case"].get("query") == case.get("query")] or res.violations
+    elif L == "EQ":
+        sub = Result()
+        run_equilibria(sub, case["sel"][0])
+        run_equilibria(sub, case["sel"][-1])
+        res.violations = [v for v in sub.violations if v["case"].get("sel") == case["sel"] and v["case"].get("order") == case["order"] and v["case"].get("query") == case.get("query")]
     elif L == "CH":
         sub = Result()
         run_chains(sub, case["n"], 0)
